@@ -6,7 +6,8 @@ PID = "C04"
 PROPS = ["Props/C04.v"]
 GEN = ['LexConst.v', 'ParseConst.v']
 MODEL_IS_SPEC = False
-RULE = ("strings: single/double-edit neighbours (delete/insert/replace/duplicate/swap of a character or token from the query alphabet) of valid rendered queries, "
+RULE = ("structural grid: literals, queries and function calls - plain, parenthesised once and twice, negated - in every expression context (test, operand of ! && ||, comparand, function argument, nested filter); "
+        "strings: single/double-edit neighbours (delete/insert/replace/duplicate/swap of a character or token from the query alphabet) of valid rendered queries, "
         "random sequences over the query alphabet, and a hand-written list of classic near-misses; membership in the RFC 9535 ABNF decided by the extracted Coq recognizer "
         "(proved sound and complete w.r.t. the transcribed grammar); a case fails if compile() accepts a string outside the grammar; "
         "the compiled structure / error class / error offset are also compared with the lexer+parser model; non-trivial = string not in the grammar; distinct = distinct strings")
@@ -56,6 +57,23 @@ def cases(ctx, budget):
         return c
     for t in CLASSICS:
         yield mk(t, "classic")
+    # structural grid: every atom (literals, queries, function calls, each also parenthesised once and twice, negated) in every
+    # expression context; the ABNF oracle decides which of these strings are outside the grammar
+    base_atoms = ["1", "-0", "'a'", "true", "null", "1.5e1", "@", "@.a", "$.b[0]", "@.*", "count(@.*)", "length(@.a)", "match(@.a, 'x')", "value(@.a)", "@.a == 1", "!@.a", "@.a && @.b"]
+    atoms = []
+    for a in base_atoms:
+        atoms += [a, "(" + a + ")", "((" + a + "))", "( " + a + " )"]
+    contexts = ["$[?%s]", "$[?!%s]", "$[?! %s]", "$[?%s && @.c]", "$[?@.c || %s]", "$[?%s == 1]", "$[?1 != %s]", "$[?%s < %s]", "$[?count(%s) == 1]", "$[?length(%s) == 1]",
+                "$[?match(%s, 'a')]", "$[?match(@.a, %s)]", "$[?value(%s) == 1]", "$[?!(%s)]", "$[?(%s) && (%s)]", "$[?@.c[?%s]]", "$[?(%s == 1)]", "$[?!(%s == %s)]"]
+    grid = []
+    for cx in contexts:
+        k = cx.count("%s")
+        for a in atoms:
+            if k == 1: grid.append(cx % a)
+            else:
+                for b in (atoms if ctx.quick is False else [rng.choice(atoms), rng.choice(atoms)]): grid.append(cx % (a, b))
+    for t in grid:
+        yield mk(t, "structural-grid")
     for i in range(n):
         r = rng.random()
         if r < 0.65:
